@@ -301,14 +301,34 @@ func runReload(c *sim.Ctl) {
 				r.started = true
 			} else {
 				var in *casket.Instance
-				if op.kind == rkHandover {
+				var handed []*os.File
+				if op.kind == rkHandover && op.idx%2 == 0 {
 					w.N.FileErr = func(*sim.Listener) error {
 						c.Fault("listener-File()-fails")
 						return fmt.Errorf("injected: too many open files")
 					}
+				} else if op.kind == rkHandover {
+					// File() works, the listener cannot be made from what it returns (as when the
+					// descriptor table fills up between the two calls)
+					w.N.FileSub = func(*sim.Listener) *os.File {
+						c.Fault("FileListener-fails")
+						f, ferr := os.Open("/dev/null")
+						if ferr != nil {
+							panic("harness: " + ferr.Error())
+						}
+						handed = append(handed, f)
+						return f
+					}
 				}
 				in, err = r.inst.Restart(input(texts[op.ver]))
-				w.N.FileErr = nil
+				w.N.FileErr, w.N.FileSub = nil, nil
+				for _, f := range handed {
+					// (Close on an *os.File makes its later calls fail: whoever was handed the file has closed it, or not)
+					if _, serr := f.Stat(); serr == nil {
+						c.Violate("C08/descriptor-left-by-failed-reload", "FileListener-fails", "reload %d failed (%v) after the old listener's File() had handed out a descriptor: that file was never closed", op.idx, err)
+						f.Close()
+					}
+				}
 				if err == nil && op.kind == rkPanic {
 					// a reload that blew up must not be reported as done; the running instance stays the one it was
 					c.Violate("C07/panicking-reload-reported-as-success", "", "reload %d, whose configuration makes a directive's setup panic, returned no error (instance returned: %v)", op.idx, in != nil)
